@@ -74,16 +74,36 @@ impl CompressedReader {
     }
 }
 
+/// The decoder has reported the end of the compressed stream: the body only ends here if the framing
+/// around it (the last chunk, the announced length) ends as well. Whatever follows the stream inside the
+/// frame is skipped; a frame that is cut short or broken is an error, as it is for a body that is not
+/// compressed.
+#[cfg(feature = "flate2")]
+fn finish_frame(reader: &mut BodyReader) -> io::Result<()> {
+    io::copy(reader, &mut io::sink()).map(|_| ())
+}
+
 impl Read for CompressedReader {
     #[inline]
     fn read(&mut self, buf: &mut [u8]) -> io::Result<usize> {
-        // TODO: gzip does not read until EOF, leaving some data in the buffer.
         match self {
             CompressedReader::Plain(s) => s.read(buf),
             #[cfg(feature = "flate2")]
-            CompressedReader::Deflate(s) => s.read(buf),
+            CompressedReader::Deflate(s) => {
+                let n = s.read(buf)?;
+                if n == 0 && !buf.is_empty() {
+                    finish_frame(s.get_mut())?;
+                }
+                Ok(n)
+            }
             #[cfg(feature = "flate2")]
-            CompressedReader::Gzip(s) => s.read(buf),
+            CompressedReader::Gzip(s) => {
+                let n = s.read(buf)?;
+                if n == 0 && !buf.is_empty() {
+                    finish_frame(s.get_mut())?;
+                }
+                Ok(n)
+            }
         }
     }
 }
